@@ -56,7 +56,7 @@ var wrongTypeError = respErrorString("WRONGTYPE Operation against a key holding 
 
 type (
 	dataStoreCommand struct {
-		id      uint32      // command counter
+		id      uint32 // command counter
 		ds      *dataStore
 		waiting *wakeSignal // set while the command's client is registered as waiting for a list
 	}
